@@ -1,15 +1,17 @@
 // C05 bounded stand-in: the lazy view requests only the blocks an operation needs.
 //
 // Bounds (quick | thorough):
-//   files: builder width W in {2,3} | {2,3,4}, "size-4", chunk counts 2..10 | 2..W^3+W, plus boxo
-//     balanced files with protobuf leaves (W=2, n in {5,9} | 2..16); EVERY range [a,b) with
-//     0 <= a < b <= len: fresh reader, Seek(a), ReadFull(b-a). Every requested block must have a
-//     content span intersecting [a,b) (ancestors do by construction); the bytes must be right.
-//   HAMTs: fanouts {8,256} | {8,16,64,256,1024}; 300 | 2000 random names plus murmur3-colliding
-//     names; for every member and 50 non-members: cold reify, one lookup; every requested block
-//     must be a shard on the name's hash path.
-//   paths: root(plain)/h(HAMT)/<name>(multi-block file) resolved with UnixFSPathSelector for every
-//     name: requests are a subset of {h, shards on the hash path, the file's root block}.
+//
+//	files: builder width W in {2,3} | {2,3,4}, "size-4", chunk counts 2..10 | 2..W^3+W, plus boxo
+//	  balanced files with protobuf leaves (W=2, n in {5,9} | 2..16); EVERY range [a,b) with
+//	  0 <= a < b <= len: fresh reader, Seek(a), ReadFull(b-a). Every requested block must have a
+//	  content span intersecting [a,b) (ancestors do by construction); the bytes must be right.
+//	HAMTs: fanouts {8,256} | {8,16,64,256,1024}; 300 | 2000 random names plus murmur3-colliding
+//	  names; for every member and 50 non-members: cold reify, one lookup; every requested block
+//	  must be a shard on the name's hash path.
+//	paths: root(plain)/h(HAMT)/<name>(multi-block file) resolved with UnixFSPathSelector for every
+//	  name: requests are a subset of {h, shards on the hash path, the file's root block}.
+//
 // Oracle: block spans / hash paths computed by vp's protowire walker over the stored blocks.
 package c05
 
